@@ -28,10 +28,18 @@ ENGINE = "C03"
 OMIT = object()
 
 
-def param_names(names, snake, scalars_cfg):
+def result_class(op):
+    from ariadne_codegen.utils import str_to_pascal_case
+
+    return str_to_pascal_case(op.name.value)
+
+
+def param_names(names, snake, scalars_cfg, rc=None):
     """{variable: Python parameter} as the generator assigns them (since /repo 7f3b78b): process_name, then "_"
     appended until free of self / kwargs / gql / UNSET / serialize functions / earlier parameters."""
     used = {"self", "kwargs", "gql", "UNSET"}
+    if rc:
+        used.add(rc)          # the operation's result class (since /repo e1c98d1)
     for c in (scalars_cfg or {}).values():
         if c and c.get("serialize"):
             used.add(c["serialize"].rsplit(".", 1)[-1])
@@ -288,8 +296,8 @@ def run(ctx):
                 try:
                     cfg0 = g.sc.config
                     ssx0 = argenc.schema_sx(g.schema, cfg0.get("scalars") or {})
-                    rs = model.batch(ENGINE, [[Sym("gen"), bool(cfg0.get("convert_to_snake_case", True)), ssx0,
-                                               argenc.vardefs_sx(g.schema, op)] for op in g.operations()])
+                    rs = model.batch(ENGINE, [[Sym("gen"), bool(cfg0.get("convert_to_snake_case", True)), result_class(op),
+                                               ssx0, argenc.vardefs_sx(g.schema, op)] for op in g.operations()])
                     bad = [op.name.value for op, r in zip(g.operations(), rs) if isinstance(r, list) and r[0] == "ok" and r[2] == "f"]
                 except Exception:  # noqa  (schema itself not loadable: not ours)
                     bad = []
@@ -309,12 +317,12 @@ def run(ctx):
             g.ssx, g.snake = ssx, snake
             for op, vsx, vds, cases in plan:
                 slots.append(("gen", g, op, None))
-                cmds.append([Sym("gen"), snake, ssx, vsx])
-                pn = param_names([n for n, _t, _d in vds], snake, cfg.get("scalars"))
+                cmds.append([Sym("gen"), snake, result_class(op), ssx, vsx])
+                pn = param_names([n for n, _t, _d in vds], snake, cfg.get("scalars"), result_class(op))
                 for c in cases:
                     kw = [[pn[n], v.sx] for n, v in c.vals.items() if v is not OMIT]
                     slots.append(("call", g, op, c))
-                    cmds.append([Sym("call"), snake, ssx, vsx, kw])
+                    cmds.append([Sym("call"), snake, result_class(op), ssx, vsx, kw])
                 # K2: valid + malformed provided values
                 for c in cases[:5]:
                     prov = {n: v.intent for n, v in c.vals.items() if v is not OMIT}
@@ -379,7 +387,7 @@ def run(ctx):
                         real = [p[0] for p in (ld.get("methods", {}).get(m, {}).get("params") or []) if p[3] != "VAR_KEYWORD"]
                         pmap = dict(zip(order, real)) if len(real) == len(order) else {}
                         for c in cases:
-                            pn = param_names(order, g.snake, g.res["config"].get("scalars"))
+                            pn = param_names(order, g.snake, g.res["config"].get("scalars"), result_class(op))
                             enc = {pmap.get(n, pn[n]): v.enc for n, v in c.vals.items() if v is not OMIT}
                             intended = {n: v.intent for n, v in c.vals.items() if v is not OMIT}
                             req = {"cmd": "call_args", "method": m, "args": enc, "intended": intended}
@@ -609,15 +617,8 @@ def check_call(ctx, g, op, vds, c, names_ok, inputs_ok, f10_bad, stats, f21_ok=T
                 problems.append(f"None for ${n} does not travel as null ({sv.get(n, '<absent>')!r})")
                 involved.add(n)
     if was_sent and exc and "corpus:body-names" in g.sc.features:
-        from ariadne_codegen.utils import str_to_pascal_case
-
+        # (F32 - a parameter called like the operation's result class - is fixed: /repo e1c98d1; no routing)
         what = f"the request was sent but the method then raised {exc[0]}: {exc[1][:160]}"
-        pn = param_names([n for n, _t, _d in vds], g.snake, g.res["config"].get("scalars"))
-        if str_to_pascal_case(op.name.value) in pn.values() and exc[0] == "AttributeError" and "model_validate" in exc[1]:
-            # narrow class: a parameter is called like the operation's own result class and shadows it
-            run.finding("F32-variable-named-like-result-class", what, replay_of(g, op, c))
-            run.dist("outcomes", "property-fails")
-            return
         problems.append(what)
         involved = None
     if problems:
